@@ -73,3 +73,9 @@ Lemma parse_fuel_eq s cx :
 Proof. unfold parse_fuel, fuel_unit, fuel_base. rewrite Nat.mul_add_distr_l. lia. Qed.
 Lemma parse_fuel_ge s cx : 8 * length s + 40 <= parse_fuel s cx.
 Proof. rewrite parse_fuel_eq. lia. Qed.
+(** ... and pays [fuel_unit cx = 8 + max_args cx] units for each character *)
+Lemma parse_fuel_ge_unit s cx n : n <= length s -> fuel_unit cx * n + 40 <= parse_fuel s cx.
+Proof.
+  intros H. unfold parse_fuel, fuel_base. rewrite (Nat.mul_comm (length s)).
+  assert (fuel_unit cx * n <= fuel_unit cx * length s) by (apply Nat.mul_le_mono_l; exact H). lia.
+Qed.
